@@ -62,6 +62,10 @@ func SortedMapEntries(m reflect.Value) (keys, elems []reflect.Value) {
 		switch v := ToLiquid(k.Interface()); {
 		case v == nil:
 			return 0
+		case isFloatKind(reflect.ValueOf(v).Kind()) && reflect.ValueOf(v).Float() != reflect.ValueOf(v).Float():
+			// NaN is neither less nor greater than any number: among the numbers it would
+			// make the order depend on where the sort happens to meet it
+			return -1
 		case isIntKind(reflect.ValueOf(v).Kind()), isFloatKind(reflect.ValueOf(v).Kind()):
 			return 1
 		case reflect.ValueOf(v).Kind() == reflect.String:
